@@ -604,3 +604,34 @@ def run(p: Program, rep: Report, tier: str) -> None:
         if n_b == 0:
             rep.undecide("R2.6", "asgi fallback sender: no read under `count is not None`")
     rep.require_instances("R2.6", 2)
+
+    # ---------------------------------------------------------------- R2.7 merged ranges are the hull of what they replace
+    # (the value-level properties of range resolution are C03, not decided; this is the one structural clause: wherever an
+    # interval already in the result list is REPLACED by a merged one, the new end is max(both ends) and the new start is
+    # min(both starts) - or the old start when the input is walked in sorted order)
+    pr = mixin.methods.get("parse_range")
+    if pr is None:
+        raise AnalysisError("FileResponseMixin.parse_range vanished")
+    rep.analysed(pr.fq)
+    returned = {n.value.id for n in ast.walk(pr.node) if isinstance(n, ast.Return) and isinstance(n.value, ast.Name)}
+    merges = [n for n in ast.walk(pr.node) if isinstance(n, ast.Assign) and len(n.targets) == 1 and isinstance(n.targets[0], ast.Subscript)
+              and isinstance(n.targets[0].value, ast.Name) and n.targets[0].value.id in returned and isinstance(n.value, ast.Tuple) and len(n.value.elts) == 2]
+    for m_ in merges:
+        lo, hi = m_.value.elts
+        loop = next((q for q in _parents(m_) if isinstance(q, ast.For) and isinstance(q.target, ast.Tuple)), None)
+        sorted_in = loop is not None and isinstance(loop.iter, ast.Call) and isinstance(loop.iter.func, ast.Name) and loop.iter.func.id == "sorted"
+        incoming = [x.id for x in loop.target.elts if isinstance(x, ast.Name)] if loop is not None else []
+        is_max = isinstance(hi, ast.Call) and isinstance(hi.func, ast.Name) and hi.func.id == "max" and len(hi.args) == 2 and (len(incoming) < 2 or any(isinstance(a, ast.Name) and a.id == incoming[1] for a in hi.args))
+        is_min = isinstance(lo, ast.Call) and isinstance(lo.func, ast.Name) and lo.func.id == "min" and len(lo.args) == 2
+        keeps_old_start = sorted_in and not any(isinstance(x, ast.Name) and x.id in incoming for x in ast.walk(lo))
+        if is_max and (is_min or keeps_old_start):
+            rep.ok("R2.7", f"parse_range: a merged range is the hull of the two it replaces ({ast.unparse(m_.value)[:60]})")
+        elif not is_max:
+            rep.violation("R2.7", construct(pr, text="merged end is not max of both ends"), where(pr, m_),
+                          f"parse_range replaces a range by ({ast.unparse(lo)[:30]}, {ast.unparse(hi)[:30]}): the end of the merged range is not the maximum of both ends, so a range lying inside an earlier one "
+                          "(bytes=0-99,10-19) shrinks it and the 206 body lacks requested bytes")
+        else:
+            rep.violation("R2.7", construct(pr, text="merged start is not min of both starts"), where(pr, m_), "parse_range: the start of a merged range is not the minimum of both starts (input not sorted)")
+    if not merges:
+        rep.undecide("R2.7", "parse_range: no in-place replacement of a result interval found (merge idiom not recognised)")
+    rep.require_instances("R2.7", 1)
